@@ -30,6 +30,8 @@ def cases(tier, rng):
     for i in range(nrand):
         if i % 6 == 5:
             out.append(gen.gen_tree(rng, depth=rng.randint(1, 2), maxar=4, atoms=clash))
+        elif i % 6 == 4:
+            out.append(gen.gen_tree(rng, depth=2, maxar=3, atoms=gen.with_part_atoms()))
         else:
             out.append(gen.gen_tree(rng, depth=rng.randint(1, 4), maxar=4, collide=(i % 3 == 0)))
     return out, len(ex)
